@@ -28,11 +28,12 @@ func init() {
 }
 
 type blOp struct {
-	Name   string `json:"op"` // Write ReadAt DataRange NewReader RRead SeekTo IsValid Close WaitAt
-	N      int    `json:"n,omitempty"`
-	Off    int64  `json:"off,omitempty"` // absolute for ReadAt/SeekTo when Rel==""
-	Rel    string `json:"rel,omitempty"` // "wpos" | "rpos": Off is relative to that
-	Custom bool   `json:"custom_err,omitempty"`
+	Name      string `json:"op"`                                  // Write ReadAt DataRange NewReader RRead SeekTo IsValid Close WaitAt
+	FileFirst bool   `json:"backing_file_closed_first,omitempty"` // Close: the owner of the backing file closed it before the backlog
+	N         int    `json:"n,omitempty"`
+	Off       int64  `json:"off,omitempty"` // absolute for ReadAt/SeekTo when Rel==""
+	Rel       string `json:"rel,omitempty"` // "wpos" | "rpos": Off is relative to that
+	Custom    bool   `json:"custom_err,omitempty"`
 }
 
 type c18prog struct {
@@ -82,6 +83,7 @@ func c18Inline(bl *backlog.Backlog, w *blWaiter) {
 
 func runBacklogScript(r *res.R, prog *c18prog, scratch string) {
 	var bl *backlog.Backlog
+	var backing *os.File
 	if prog.Backend == "file" {
 		f, err := os.OpenFile(filepath.Join(scratch, fmt.Sprintf("bl-%d.dat", prog.Seed)), os.O_CREATE|os.O_RDWR|os.O_TRUNC, 0600)
 		if err != nil {
@@ -89,6 +91,7 @@ func runBacklogScript(r *res.R, prog *c18prog, scratch string) {
 			return
 		}
 		defer os.Remove(f.Name())
+		backing = f
 		bl = backlog.NewFileBacklog(prog.Cap, f)
 	} else {
 		bl = backlog.NewSize(prog.Cap)
@@ -393,6 +396,12 @@ func runBacklogScript(r *res.R, prog *c18prog, scratch string) {
 				}
 			}
 		case "Close":
+			if op.FileFirst && backing != nil {
+				// shutdown order of a careless owner: the file goes first, so the backlog's own clean-up of it fails -
+				// the readers parked on the backlog must be released all the same
+				backing.Close()
+				r.Count("closes_after_the_backing_file_was_closed", 1)
+			}
 			if op.Custom {
 				bl.CloseWithError(errCustomW)
 			} else {
@@ -438,6 +447,9 @@ func genBacklogScript(rng *prng.R, backend string, capacity int) *c18prog {
 		switch k := rng.Intn(24); {
 		case i == closeAt:
 			op = blOp{Name: "Close", Custom: rng.Bool()}
+			if backend == "file" {
+				op.FileFirst = rng.Chance(1, 3)
+			}
 		case k < 8:
 			op = blOp{Name: "Write", N: sizes[rng.Intn(len(sizes))]}
 			if rng.Chance(1, 3) {
@@ -972,7 +984,7 @@ func runCrossing(r *res.R, hc *histCase, scratch string, rng *prng.R) {
 
 func c18(c *wk.Ctx) {
 	r := c.R
-	r.Rule = "Mode A: seeded single-threaded programs of Write/ReadAt/WaitAt(up to 3 simultaneous readers parked at wpos)/DataRange/NewReader/SeekTo/IsValid/Reader.Read/Close against an exact offset model {wpos, capacity, closed} with position-coded content; offsets aimed at wpos-cap-1..wpos-cap+1 and wpos..wpos+1; waiting/waking decided by goroutine state. " +
+	r.Rule = "Mode A: seeded single-threaded programs of Write/ReadAt/WaitAt(up to 3 simultaneous readers parked at wpos)/DataRange/NewReader/SeekTo/IsValid/Reader.Read/Close against an exact offset model {wpos, capacity, closed} with position-coded content; offsets aimed at wpos-cap-1..wpos-cap+1 and wpos..wpos+1; waiting/waking decided by goroutine state (a third of the file-backend Close steps happen after the backing file was closed by its owner). " +
 		"Mode B: 1 writer (chunks not crossing the ring end) + 2-4 readers recorded at the API boundary and checked with porcupine against the model; ring-crossing writes under an interval oracle; 9 concurrent writers (one with payloads that straddle the ring end) whose self-describing payloads must each be contiguous in the log. distinct = (backend, capacity, ring laps, #waits, closed) / history shape"
 	if c.Replay != "" {
 		b, err := os.ReadFile(c.Replay)
@@ -1041,6 +1053,7 @@ func c18(c *wk.Ctx) {
 	r.Floor("waits", 200)
 	r.Floor("waiter_wakeups_by_write", 100)
 	r.Floor("waiter_wakeups_by_close", 10)
+	r.Floor("closes_after_the_backing_file_was_closed", 2)
 	r.Floor("ring_laps", 500)
 	r.Floor("history_ops", 2000)
 	r.Floor("concurrent_writer_rounds_straddling_ring_end", 5000)
